@@ -859,7 +859,12 @@ class TDS(BaseRoutine):
 
         # if a `custom_event` flag is set (without a specific callback)
         if self.custom_event is True:
-            system.switch_action(system.exist.pflow_tds)
+            models = system.exist.pflow_tds
+            if ret is True:
+                # the models with an event scheduled at this time have just been switched
+                done = system.switch_dict[self._last_switch_t]
+                models = OrderedDict((name, mdl) for name, mdl in models.items() if name not in done)
+            system.switch_action(models)
             self._last_switch_t = system.dae.t.tolist()
             system.vars_to_models()
             self.custom_event = False
